@@ -364,12 +364,20 @@ def reference(spec, graph):
         ga = tuple(ex["atoms"])
         applied[(ex["sec"], ga, "explicit")] = (tuple(ex["params"]), {}, "explicit")
         link_keys.add((ex["sec"], ga, "explicit"))
-        for x, y in zip(ga[:-1], ga[1:]):
-            edges.add(frozenset((x, y)))
+        # bonds are what the connectivity sections describe; a pair or an exclusion between two atoms is not a bond
+        if ex["sec"] in EDGE_SECS_FF + ("cmap",):
+            for x, y in zip(ga[:-1], ga[1:]):
+                edges.add(frozenset((x, y)))
         stats["explicit_links"] += 1
     # ---- assemble ------------------------------------------------------------------------------------------
     exp_inter = defaultdict(Counter)
     for (sec, ga, ver), (params, meta, origin) in applied.items():
+        if sec == "exclusions" and ga[0] not in removed and any(g in removed for g in ga):
+            # an exclusion row names one atom and its partners: the partners that are left stay excluded
+            ga = tuple(g for g in ga if g not in removed)
+            if len(ga) < 2:
+                continue
+            stats["exclusion_rows_that_lost_a_partner"] += 1
         if any(g in removed for g in ga):
             continue
         exp_inter[file_sec(sec)][(canon_atoms(sec, ga), tuple(params), cond_of(meta))] += 1
